@@ -38,6 +38,13 @@ Theorem T08_1_file_preserve :
 Proof. exact used_names_in_file_preserve. Qed.
 Print Assumptions T08_1_file_preserve.
 
+(* T08.1'' the file's own used names never reduce its preserve set (the library may itself be among the
+   preserved files: `pyrefact lib.py --preserve .`). *)
+Theorem T08_1_own_names_irrelevant :
+  forall files self f, file_preserve ((self, f) :: files) self = file_preserve files self.
+Proof. exact own_names_irrelevant. Qed.
+Print Assumptions T08_1_own_names_irrelevant.
+
 (* T08.3 every rule, every preserve set, every oracle, every sequence of rules (multi-pass runs are
    longer sequences): a top-level definition whose name is in `preserve` (and is not `_`), and a member
    whose name and whose class name are, is neither deleted nor renamed. *)
